@@ -214,9 +214,30 @@ def time_limit(seconds):
 
 
 # -------------------------------------------------------------- recipe runner
-def _frame(recs, symm_cols=("bin1_id", "bin2_id", "count")):
+def extra_value(b1, b2):
+    """deterministic value of the extra pixel column "w" used by the `columns` recipes"""
+    return b1 * 7 + b2 + 1
+
+
+def _frame(recs, extra=False, float_count=False):
     a = np.array(recs, dtype=np.int64).reshape(-1, 3)
-    return pd.DataFrame({"bin1_id": a[:, 0], "bin2_id": a[:, 1], "count": a[:, 2]})
+    df = pd.DataFrame({"bin1_id": a[:, 0], "bin2_id": a[:, 1], "count": a[:, 2]})
+    if float_count:
+        df["count"] = df["count"].astype(np.float64)
+    if extra:
+        df["w"] = extra_value(a[:, 0], a[:, 1])
+    return df
+
+
+def _opts(step):
+    """extra keyword options of a producer, as stored (JSON) in the recipe"""
+    o = dict(step.get("opts") or {})
+    if "h5opts" in o:
+        h = dict(o["h5opts"])
+        if isinstance(h.get("chunks"), list):
+            h["chunks"] = tuple(h["chunks"])
+        o["h5opts"] = h
+    return o
 
 
 def _bins(widths):
@@ -246,15 +267,24 @@ def run_step(d, step):
         kw = dict(symmetric_upper=step["symm"], mode="a" if step.get("append") else "w")
         if not step["symm"]:
             kw["triucheck"] = False
+        kw.update(_opts(step))
+        extra = "w" in (kw.get("columns") or [])
+        fl = str((kw.get("dtypes") or {}).get("count", "")).startswith("float")
+        frames = [_frame(c, extra, fl) for c in chunks]
         if kind == "frame":
-            create_cooler(_uri(d, step), bins, _frame(chunks[0]), **kw)
+            create_cooler(_uri(d, step), bins, frames[0], **kw)
         elif kind == "dict":
-            fr = _frame(chunks[0])
+            fr = frames[0]
             create_cooler(_uri(d, step), bins, {k: fr[k].values for k in fr.columns}, **kw)
         elif kind == "ordered":
-            create_cooler(_uri(d, step), bins, iter([_frame(c) for c in chunks]), ordered=True, **kw)
+            es = bool(step.get("ensure_sorted", False))
+            if step.get("api") == "create":
+                from cooler.create import create
+                create(_uri(d, step), bins, iter(frames), ensure_sorted=es, **kw)
+            else:
+                create_cooler(_uri(d, step), bins, iter(frames), ordered=True, ensure_sorted=es, **kw)
         elif kind == "unordered":
-            create_cooler(_uri(d, step), bins, iter([_frame(c) for c in chunks]), ordered=False,
+            create_cooler(_uri(d, step), bins, iter(frames), ordered=False,
                           mergebuf=step.get("mergebuf", 20_000_000), max_merge=step.get("max_merge", 200),
                           ensure_sorted=bool(step.get("ensure_sorted", False)), **kw)
         else:
@@ -307,16 +337,18 @@ def run_step(d, step):
             raise RuntimeError(f"cli exit {res.exit_code}: {res.exception!r} {str(res.output)[-300:]}")
     elif op == "merge":
         kw = {"mode": "a"} if step.get("append") else {}
+        kw.update(_opts(step))
         cooler.merge_coolers(_uri(d, step), [_src_uri(d, r) for r in step["inputs"]], mergebuf=step["mergebuf"], **kw)
     elif op == "coarsen":
         kw = {}
         if step.get("append") is False:
             kw["mode"] = "w"
+        kw.update(_opts(step))
         cooler.coarsen_cooler(_src_uri(d, step["in"]), _uri(d, step), step["factor"], chunksize=step["chunksize"],
                               nproc=step.get("nproc", 1), **kw)
     elif op == "zoomify":
         cooler.zoomify_cooler([_src_uri(d, r) for r in step["inputs"]], os.path.join(d, step["out"]),
-                              step["resolutions"], chunksize=step["chunksize"], nproc=step.get("nproc", 1))
+                              step["resolutions"], chunksize=step["chunksize"], nproc=step.get("nproc", 1), **_opts(step))
     elif op == "scool":
         bins = _bins(step["widths"])
         cells = {k: _frame(v) for k, v in step["cells"].items()}
@@ -458,7 +490,7 @@ def gen_create(rng, out, group="", append=False, widths=None, symm=None, kind=No
             sub = rng.sample(pool, rng.randint(0, len(pool)))
             recs = rand_records(rng, sorted(sub), big)
             if ens:
-                rng.shuffle(recs)
+                recs = disorder(rng, recs, rng.choice(["shuffle", "cols", "cols"]))
             chunks.append(recs)
         if pool and all(len(c) == 0 for c in chunks):
             chunks[rng.randrange(nch)] = rand_records(rng, sorted(pool), big)
@@ -467,6 +499,56 @@ def gen_create(rng, out, group="", append=False, widths=None, symm=None, kind=No
         step["mergebuf"] = rng.choice([1, 2, 3, 5, 1000])
         step["max_merge"] = rng.choice([1, 2, 3, 200])
     return step
+
+
+def row_partition(rng, recs, maxchunks=4):
+    """cut a (bin1,bin2)-sorted record list into consecutive chunks at ROW boundaries only (plus
+    possibly empty chunks), so that the concatenation of the individually sorted chunks is sorted"""
+    rows = sorted({r[0] for r in recs})
+    k = rng.randint(1, maxchunks)
+    cutrows = sorted(rng.sample(rows, min(len(rows), k - 1))) if rows else []
+    chunks, cur = [], []
+    ci = 0
+    for r in recs:
+        while ci < len(cutrows) and r[0] >= cutrows[ci]:
+            chunks.append(cur)
+            cur = []
+            ci += 1
+        cur.append(r)
+    chunks.append(cur)
+    if rng.random() < 0.3:
+        chunks.insert(rng.randint(0, len(chunks)), [])
+    return chunks
+
+
+def disorder(rng, chunk, how):
+    """(a) 'shuffle': any order; (b) 'cols': rows in order, column ids shuffled inside each row;
+    (c) 'sorted': as it is"""
+    if how == "shuffle":
+        c = list(chunk)
+        rng.shuffle(c)
+        return c
+    if how == "cols":
+        out = []
+        for row in sorted({r[0] for r in chunk}):
+            rr = [r for r in chunk if r[0] == row]
+            rng.shuffle(rr)
+            out += rr
+        return out
+    return list(chunk)
+
+
+def gen_create_ensure_sorted(rng, out, how, api, symm=None, widths=None, shape=None):
+    """one-pass creation (ordered=True) with ensure_sorted=True: every chunk is sorted by the validator,
+    chunks partition the row range"""
+    widths = widths or rand_widths(rng, maxbins=7)
+    n = nbins_of(widths)
+    symm = (rng.random() < 0.6) if symm is None else symm
+    cells = rand_cells(rng, n, symm, shape or rng.choice(["dense", "sparse", "sparse", "gaprows", "row", "lastrow"]))
+    recs = rand_records(rng, sorted(cells))
+    chunks = [disorder(rng, ch, how) for ch in row_partition(rng, recs)]
+    return {"op": "create", "out": out, "group": "", "append": False, "widths": widths, "symm": symm, "input": "ordered",
+            "chunks": chunks, "ensure_sorted": True, "api": api, "disorder": how}
 
 
 def gen_load(rng, out, group="", append=False):
